@@ -18,6 +18,8 @@ def _cell(k, c, n):
     if k.mode == "native":
         import math
 
+        if c != c:  # a NaN coordinate (log of a non-positive value) makes the blend NaN, as in the real code
+            return 0, c
         low = min(max(math.floor(c), 0), int(n) - 2)
         return low, c - low
     import z3
@@ -68,6 +70,8 @@ def coordinate(k, kind, value, start, stop, n):
 
         if kind == "lin":
             return (value - start) / ((stop - start) / (n - 1))
+        if not value > 0:
+            return float("nan")
         ls, le, lv = math.log(start), math.log(stop), math.log(value)
         h = (le - ls) / (n - 1)
         rk = math.floor((lv - ls) / h)
